@@ -429,12 +429,16 @@ static void run_c14_bulk(void)
     S.recycle = plan_bool();
     ABT_pool_user_def def = NULL;
     ABT_pool_def ldef;
+    /* two user pools (legacy definitions cannot tell their pools apart in create: one) and a
+     * built-in pool; work units travel between them in batches */
+    int nup = S.legacy ? 1 : NUP;
     if (!S.legacy) {
         ABT_OK(ABT_pool_user_def_create(n_create_unit, n_free_unit, n_is_empty, n_pop, n_push, &def));
         ABT_OK(ABT_pool_user_def_set_get_size(def, n_get_size));
         ABT_OK(ABT_pool_user_def_set_pop_many(def, n_pop_many));
         ABT_OK(ABT_pool_user_def_set_push_many(def, n_push_many));
-        ABT_OK(ABT_pool_create(def, ABT_POOL_CONFIG_NULL, &S.UP[0].pool));
+        for (int i = 0; i < nup; i++)
+            ABT_OK(ABT_pool_create(def, ABT_POOL_CONFIG_NULL, &S.UP[i].pool));
         ABT_OK(ABT_pool_user_def_free(&def));
     } else {
         memset(&ldef, 0, sizeof ldef);
@@ -446,35 +450,45 @@ static void run_c14_bulk(void)
         ldef.p_push = l_push;
         ldef.p_pop = l_pop;
         ABT_OK(ABT_pool_create(&ldef, ABT_POOL_CONFIG_NULL, &S.UP[0].pool));
+        S.UP[1].pool = ABT_POOL_NULL;
     }
-    /* the second pool slot stays unused: give it a handle that never matches */
-    S.UP[1].pool = ABT_POOL_NULL;
-    ABT_pool pool = S.UP[0].pool;
-    c14_legacy_target = pool;
+    ABT_OK(ABT_pool_create_basic(ABT_POOL_FIFO, ABT_POOL_ACCESS_MPMC, ABT_FALSE, &S.builtin));
+    ABT_pool P[NUP + 1];
+    int np = 0;
+    for (int i = 0; i < nup; i++)
+        P[np++] = S.UP[i].pool;
+    P[np++] = S.builtin;
+    c14_legacy_target = S.UP[0].pool;
     int n = plan_range(1, MAXU);
-    sim_note("C14 bulk %s pool units=%d: ", S.legacy ? "legacy" : "new-style", n);
+    sim_note("C14 bulk %s pools=%d units=%d: ", S.legacy ? "legacy" : "new-style", np, n);
     ABT_thread th[MAXU];
-    for (int i = 0; i < n; i++)
-        ABT_OK(ABT_thread_create(pool, bulk_fn, (void *)(long)i, ABT_THREAD_ATTR_NULL, &th[i]));
-    upool *p = &S.UP[0];
-    SIM_CHECK(p->nq == n && p->creates == n, "upool:create-unit-count", "%d units created and pushed, the pool saw %ld creates and holds %d", n, p->creates, p->nq);
-    int rounds = plan_range(1, 4);
+    int where[MAXU]; /* index into P */
+    long expect_creates = 0;
+    for (int i = 0; i < n; i++) {
+        where[i] = (int)plan_n((uint32_t)np);
+        ABT_OK(ABT_thread_create(P[where[i]], bulk_fn, (void *)(long)i, ABT_THREAD_ATTR_NULL, &th[i]));
+        if (where[i] < nup)
+            expect_creates++;
+    }
+    int rounds = plan_range(1, 5);
     for (int r = 0; r < rounds; r++) {
-        int queued = p->nq;
+        int src = (int)plan_n((uint32_t)np), dst = (int)plan_n((uint32_t)np);
+        int queued = 0;
+        for (int i = 0; i < n; i++)
+            queued += where[i] == src;
         size_t len = 1 + (size_t)plan_n((uint32_t)n + 2), num = 99;
         ABT_thread out[MAXU + 4];
-        long pops0 = p->pops;
+        long pops0 = src < nup ? S.UP[src].pops : 0;
         int how = (int)plan_n(3);
         if (how == 0) {
-            ABT_OK(ABT_pool_pop_threads(pool, out, len, &num));
+            ABT_OK(ABT_pool_pop_threads(P[src], out, len, &num));
         } else if (how == 1) {
-            ABT_OK(ABT_pool_pop_threads_ex(pool, out, len, &num, ABT_POOL_CONTEXT_OP_POOL_OTHER));
+            ABT_OK(ABT_pool_pop_threads_ex(P[src], out, len, &num, ABT_POOL_CONTEXT_OP_POOL_OTHER));
         } else {
-            /* one by one */
             num = 0;
             for (size_t k = 0; k < len; k++) {
                 ABT_thread t = ABT_THREAD_NULL;
-                ABT_OK(ABT_pool_pop_thread(pool, &t));
+                ABT_OK(ABT_pool_pop_thread(P[src], &t));
                 if (t == ABT_THREAD_NULL)
                     break;
                 out[num++] = t;
@@ -482,41 +496,60 @@ static void run_c14_bulk(void)
         }
         size_t want = len < (size_t)queued ? len : (size_t)queued;
         SIM_CHECK(num == want, "upool:pop-many-count", "popping up to %zu units from a pool of %d returned %zu", len, queued, num);
-        SIM_CHECK(p->pops - pops0 == (long)num, "upool:unit-dropped", "the runtime took %ld units out of the user pool but handed %zu to the caller", p->pops - pops0, num);
+        if (src < nup)
+            SIM_CHECK(S.UP[src].pops - pops0 == (long)num, "upool:unit-dropped", "the runtime took %ld units out of the user pool but handed %zu to the caller", S.UP[src].pops - pops0,
+                      num);
         for (size_t a = 0; a < num; a++) {
-            int known = 0;
+            int idx = -1;
             for (int i = 0; i < n; i++)
-                known |= out[a] == th[i];
-            SIM_CHECK(known, "upool:wrong-translation", "a bulk pop returned a handle that is none of the created work units");
+                if (out[a] == th[i])
+                    idx = i;
+            SIM_CHECK(idx >= 0 && where[idx] == src, "upool:wrong-translation", "a bulk pop from pool %d returned a handle that is not a work unit of that pool", src);
             for (size_t b = 0; b < a; b++)
                 SIM_CHECK(out[a] != out[b], "upool:unit-popped-twice", "a bulk pop returned the same work unit twice");
+            where[idx] = dst;
+            if (dst < nup && dst != src)
+                expect_creates++; /* a new association with a user pool */
         }
         size_t sz = 99;
-        ABT_OK(ABT_pool_get_size(pool, &sz));
-        SIM_CHECK(sz == (size_t)queued - num && p->nq == queued - (int)num, "upool:size", "pool size %zu after popping %zu of %d units", sz, num, queued);
-        /* give them back */
+        ABT_OK(ABT_pool_get_size(P[src], &sz));
+        SIM_CHECK(sz == (size_t)queued - num, "upool:size", "pool size %zu after popping %zu of %d units", sz, num, queued);
+        /* hand them to dst (possibly another pool: the units are re-associated, the user pools'
+         * own checks in push/create_unit/free_unit see every handle that crosses) */
         if (num) {
             if (plan_bool())
-                ABT_OK(ABT_pool_push_threads(pool, out, num));
+                ABT_OK(ABT_pool_push_threads(P[dst], out, num));
             else
                 for (size_t a = 0; a < num; a++)
-                    ABT_OK(ABT_pool_push_thread(pool, out[a]));
+                    ABT_OK(ABT_pool_push_thread(P[dst], out[a]));
         }
-        SIM_CHECK(p->nq == queued, "upool:size", "pool holds %d units after they were pushed back, %d expected", p->nq, queued);
+        int indst = 0;
+        for (int i = 0; i < n; i++)
+            indst += where[i] == dst;
+        ABT_OK(ABT_pool_get_size(P[dst], &sz));
+        SIM_CHECK(sz == (size_t)indst, "upool:size", "pool %d holds %zu units after the batch was pushed, %d expected", dst, sz, indst);
         S.queries++;
         sim_progress();
     }
     /* now let a stream run them */
     ABT_xstream xs;
-    ABT_OK(ABT_xstream_create_basic(ABT_SCHED_BASIC, 1, &pool, ABT_SCHED_CONFIG_NULL, &xs));
+    ABT_OK(ABT_xstream_create_basic(ABT_SCHED_BASIC, np, P, ABT_SCHED_CONFIG_NULL, &xs));
     for (int i = 0; i < n; i++) {
         ABT_OK(ABT_thread_free(&th[i]));
         SIM_CHECK(bulk_runs[i] == 1, "once:not-exactly-once", "unit %d ran %d times", i, bulk_runs[i]);
     }
     ABT_OK(ABT_xstream_join(xs));
     ABT_OK(ABT_xstream_free(&xs));
-    SIM_CHECK(p->creates == n && p->frees == n, "upool:free-unit-count", "%ld units created, %ld freed for %d work units", p->creates, p->frees, n);
-    ABT_OK(ABT_pool_free(&pool));
+    long creates = 0, frees = 0;
+    for (int i = 0; i < nup; i++) {
+        creates += S.UP[i].creates;
+        frees += S.UP[i].frees;
+    }
+    SIM_CHECK(creates == expect_creates, "upool:create-unit-count", "create_unit was called %ld times for %ld associations with user pools", creates, expect_creates);
+    SIM_CHECK(frees == creates, "upool:free-unit-count", "%ld units created, %ld freed", creates, frees);
+    for (int i = 0; i < nup; i++)
+        ABT_OK(ABT_pool_free(&S.UP[i].pool));
+    ABT_OK(ABT_pool_free(&S.builtin));
     ABT_OK(ABT_finalize());
     sim_ledger_check_empty("after ABT_finalize");
     sim_count("c14.bulk_rounds", (uint64_t)S.queries);
